@@ -112,7 +112,9 @@ var (
 	c05Labels     = []string{"a", "b", "job", "app", "level", "status", "x_y", "_u", "k9", "Ab",
 		"Offset", "By", "JSON", "On", "Or", "Keep", "Unwrap", "Bool", "Without"} // keywords are case-sensitive: these are plain identifiers
 	c05FuncLabels = []string{"rate", "sum", "duration", "ip", "bytes", "count", "vector"} // function-named labels, used where the next token is an operator, "," or ")"
-	c05StrVals    = []string{"", "x", "hello world", "with \"quote\"", "back\\slash", "tab\there", "new\nline", "ünï", "{}()[]", "a|b", "#not comment", "`", "\x01", "%d", "'single'", "cr\rlf\r\nend", "\r"}
+	c05StrVals    = []string{"", "x", "hello world", "with \"quote\"", "back\\slash", "tab\there", "new\nline", "ünï", "{}()[]", "a|b", "#not comment", "`", "\x01", "%d", "'single'", "cr\rlf\r\nend", "\r",
+		// bytes that can only be written as \xNN escapes (Latin-1 text, half a rune): an escape denotes ONE byte
+		"caf\xe9", "\xff\xfe", "\xe2\x9c", "\x80", "a\xc3"}
 	c05Regexes    = []string{"^a|b$", "^GET|x$", `^ab\$`, "^(a|b)$", "a.*", "(x|y)+", "[0-9]{3}", "^GET$", "\\d+\\.\\d+", "", ".*", "(?i)err", "a\\\\b", "\"q\"", "[[:alpha:]]+"}
 	c05Durs       = map[string]time.Duration{"5s": 5 * time.Second, "1m": time.Minute, "2h": 2 * time.Hour, "100ms": 100 * time.Millisecond, "1d": 24 * time.Hour, "1w": 7 * 24 * time.Hour,
 		"1h30m": 90 * time.Minute, "10ns": 10, "5us": 5 * time.Microsecond, "7µs": 7 * time.Microsecond, "1m30s": 90 * time.Second, "1w2d": 9 * 24 * time.Hour, "90m": 90 * time.Minute, "0s": 0, "1h1m1s": time.Hour + time.Minute + time.Second, "250ms": 250 * time.Millisecond}
